@@ -55,6 +55,31 @@ void harness(void) {
     if (unsafe == 2) __CPROVER_assert(cnt == nnb && !sawOrigin, "ring 1 = exactly the neighbours");
     else __CPROVER_assert(cnt == nnb + 1 && sawOrigin, "disk 1 = origin and all neighbours");
     if (unsafe == 1) __CPROVER_assert(out[1] == h, "unsafe disk in ring order: origin first");
+#elif defined(K2)
+    // k = 2 through gridDiskDistances: exactly the cells within two neighbour steps, each with its exact step count
+    H3Index h = in_h = mkcell(RES, "in_h");
+    VP_EXCLUDE();
+    H3Index n1[6]; int c1 = nb_of(h, n1);
+    H3Index n2[36]; int c2 = 0;
+    for (int i = 0; i < 6; i++) if (i < c1) { H3Index t[6]; int ct = nb_of(n1[i], t); for (int j = 0; j < 6; j++) if (j < ct) n2[c2++] = t[j]; }
+    H3Index out[21]; int dist[21];
+    for (int i = 0; i < 21; i++) { out[i] = 0; dist[i] = 0; }
+    out[0] = out[20] = UINT64_C(0x5a5a5a5a5a5a5a5a);
+    H3Error e = H3_EXPORT(gridDiskDistances)(h, 2, out + 1, dist + 1);
+    __CPROVER_assert(e == E_SUCCESS, "gridDiskDistances k=2 succeeds");
+    __CPROVER_assert(out[0] == UINT64_C(0x5a5a5a5a5a5a5a5a) && out[20] == UINT64_C(0x5a5a5a5a5a5a5a5a), "within maxGridDiskSize(2) = 19 slots");
+    for (int i = 0; i < 19; i++) if (out[1 + i]) {
+        H3Index c = out[1 + i];
+        int d = 3;
+        if (c == h) d = 0;
+        else { for (int j = 0; j < 6; j++) if (j < c1 && n1[j] == c) d = 1; if (d == 3) for (int j = 0; j < 36; j++) if (j < c2 && n2[j] == c) d = 2; }
+        __CPROVER_assert(d <= 2 && dist[1 + i] == d, "every output is within two steps and carries its exact step count");
+        for (int j = 0; j < i; j++) __CPROVER_assert(out[1 + j] != c, "no duplicates");
+    }
+    // completeness: every cell within two steps is present
+    int k = vp_int("in_d"); in_d = k;
+    __CPROVER_assume(k >= 0 && k < 36);
+    if (k < c2) { int found = 0; for (int i = 0; i < 19; i++) if (out[1 + i] == n2[k]) found = 1; VP_WITNESS("k2"); __CPROVER_assert(found, "every cell reachable in two steps is in the disk"); }
 #elif defined(DISKS2)
     // gridDisksUnsafe on two origins, k=1: either an error, or each 7-slot segment is exactly that origin's disk, origin first
     H3Index hs[2]; hs[0] = in_h = mkcell(RES, "in_h"); hs[1] = in_b = mkcell(RES, "in_b");
